@@ -3,9 +3,16 @@ package c03
 
 import (
 	"bytes"
+	"crypto/ecdsa"
+	"crypto/elliptic"
+	"crypto/rand"
 	"crypto/tls"
+	"crypto/x509"
+	"crypto/x509/pkix"
 	"fmt"
+	"github.com/mholt/caddy-l4/layer4"
 	"io"
+	"math/big"
 	"net"
 	"os"
 	"path/filepath"
@@ -27,22 +34,25 @@ type peerPlan struct {
 	// Mode: "after-eof"  the peer answers only after it has seen the client's end-of-stream (request/response over half-close)
 	//       "first"      the peer answers at once, half-closes, then keeps reading until the client's end-of-stream
 	//       "duplex"     the peer answers while it reads
-	Mode   string
-	Chunk  int
-	RstAt  int // >0: the peer resets the connection after reading this many bytes
+	Mode  string
+	Chunk int
+	RstAt int // >0: the peer resets the connection after reading this many bytes
 }
 
 type c3case struct {
-	Transport   string // tcp, unix, tls, throttled (TCP behind a throttle handler: the downstream then offers no half-close)
-	Consume     int    // bytes a non-terminal route consumes before the route with the proxy handler is matched
-	Upstream    string // tcp or unix
+	Transport string // tcp, unix, tls, throttled (TCP behind a throttle handler: the downstream then offers no half-close)
+	Consume   int    // bytes a non-terminal route consumes before the route with the proxy handler is matched
+	Upstream  string // tcp, unix or tls (the proxy dials its upstreams with TLS)
+	// TLS12Close (Transport tls): the client speaks TLS 1.2 and its last record leaves together with its close_notify,
+	// so that the server reads the end of the stream in the same call as the last bytes
+	TLS12Close  bool
 	Peers       []peerPlan
 	Client      int
 	ClientChunk int
 	PauseUs     int
 	PreMatch    int
 	// ClientLate: the client first reads until it sees end-of-stream from the upstreams and only then sends
-	ClientLate bool
+	ClientLate  bool
 	ClientRstAt int // >0: the client resets after sending this many bytes
 }
 
@@ -65,7 +75,8 @@ func logSize(t *rapid.T, label string, max int) int {
 }
 
 func genCase(t *rapid.T, maxSize int) c3case {
-	c := c3case{Transport: []string{"tcp", "unix", "tls", "throttled"}[rapid.IntRange(0, 3).Draw(t, "transport")], Upstream: []string{"tcp", "unix"}[rapid.IntRange(0, 1).Draw(t, "upstream")]}
+	c := c3case{Transport: []string{"tcp", "unix", "tls", "throttled"}[rapid.IntRange(0, 3).Draw(t, "transport")], Upstream: []string{"tcp", "unix", "tls"}[rapid.IntRange(0, 2).Draw(t, "upstream")]}
+	c.TLS12Close = c.Transport == "tls" && rapid.Bool().Draw(t, "tls12Close")
 	c.Client = logSize(t, "client", maxSize)
 	c.ClientChunk = []int{1 << 20, 7, 1000, 16384}[rapid.IntRange(0, 3).Draw(t, "clientChunk")]
 	if c.Client > 20000 && c.ClientChunk < 1000 {
@@ -79,8 +90,10 @@ func genCase(t *rapid.T, maxSize int) c3case {
 	if c.ClientLate {
 		c.PreMatch = 0 // a matcher that waits for bytes would wait for the late client: that is C05's business
 	}
-	if c.PreMatch > 1 && c.Transport != "tls" && c.Client-c.PreMatch >= 1 && rapid.Bool().Draw(t, "consume") {
-		c.Consume = rapid.IntRange(1, min(c.PreMatch-1, c.Client-c.PreMatch)).Draw(t, "consumeN")
+	// (the second matcher wants PreMatch bytes behind the consumed ones, and the matching buffer - which keeps counting
+	// consumed bytes - holds layer4.MaxMatchingBytes: beyond that matching legitimately ends with "buffer full")
+	if room := min(c.PreMatch-1, c.Client-c.PreMatch, layer4.MaxMatchingBytes-c.PreMatch); c.PreMatch > 1 && c.Transport != "tls" && room >= 1 && rapid.Bool().Draw(t, "consume") {
+		c.Consume = rapid.IntRange(1, room).Draw(t, "consumeN")
 	}
 	np := rapid.IntRange(1, 3).Draw(t, "npeers")
 	for i := 0; i < np; i++ {
@@ -111,6 +124,45 @@ func genCase(t *rapid.T, maxSize int) c3case {
 }
 
 // byte alphabets: peer p only sends bytes with b%4 == p+1, the client only b%4 == 0
+// holdConn collects writes while hold is set and sends them as one piece on flush.
+type holdConn struct {
+	net.Conn
+	hold bool
+	held []byte
+}
+
+func (h *holdConn) Write(p []byte) (int, error) {
+	if h.hold {
+		h.held = append(h.held, p...)
+		return len(p), nil
+	}
+	return h.Conn.Write(p)
+}
+
+func (h *holdConn) flush() error {
+	h.hold = false
+	_ = h.Conn.SetWriteDeadline(time.Now().Add(15 * time.Second)) // crypto/tls sets it to "now" after its close_notify
+	_, err := h.Conn.Write(h.held)
+	h.held = nil
+	return err
+}
+
+// CloseWrite lets crypto/tls half-close the TCP connection underneath.
+func (h *holdConn) CloseWrite() error {
+	if cw, ok := h.Conn.(interface{ CloseWrite() error }); ok {
+		return cw.CloseWrite()
+	}
+	return nil
+}
+
+var peerCert = func() tls.Certificate {
+	key, _ := ecdsa.GenerateKey(elliptic.P256(), rand.Reader)
+	tpl := &x509.Certificate{SerialNumber: big.NewInt(3), Subject: pkix.Name{CommonName: "c03 peer"}, NotBefore: time.Now().Add(-time.Hour), NotAfter: time.Now().Add(48 * time.Hour),
+		KeyUsage: x509.KeyUsageDigitalSignature, ExtKeyUsage: []x509.ExtKeyUsage{x509.ExtKeyUsageServerAuth}, DNSNames: []string{"localhost"}, IPAddresses: []net.IP{net.IPv4(127, 0, 0, 1)}}
+	der, _ := x509.CreateCertificate(rand.Reader, tpl, tpl, &key.PublicKey, key)
+	return tls.Certificate{Certificate: [][]byte{der}, PrivateKey: key}
+}()
+
 func alphabet(tag uint64, n int, class byte) []byte {
 	s := hx.Stream(tag, n)
 	for i := range s {
@@ -154,6 +206,9 @@ func runCase(t hx.TB, c c3case, dir string) {
 			ln, err = net.Listen("tcp", "127.0.0.1:0")
 			if err == nil {
 				dials = append(dials, ln.Addr().String())
+				if c.Upstream == "tls" {
+					ln = tls.NewListener(ln, &tls.Config{Certificates: []tls.Certificate{peerCert}})
+				}
 			}
 		}
 		if err != nil {
@@ -174,6 +229,14 @@ func runCase(t hx.TB, c c3case, dir string) {
 			defer conn.Close()
 			_ = conn.SetDeadline(time.Now().Add(30 * time.Second))
 			r := pres[i]
+			if tc, ok := conn.(*tls.Conn); ok {
+				// a TLS server completes the handshake when the connection arrives, before its application speaks or
+				// half-closes (crypto/tls would otherwise only do so on the first Read or Write)
+				if err := tc.Handshake(); err != nil {
+					r.err = "handshake: " + err.Error()
+					return
+				}
+			}
 			send := func() {
 				for off := 0; off < len(resp); off += p.Chunk {
 					if _, err := conn.Write(resp[off:min(off+p.Chunk, len(resp))]); err != nil {
@@ -236,7 +299,11 @@ func runCase(t hx.TB, c c3case, dir string) {
 		}
 	}()
 	// ---- the proxy under test ----
-	proxy := rx.H("proxy", "upstreams", []map[string]any{{"dial": dials}})
+	upCfg := map[string]any{"dial": dials}
+	if c.Upstream == "tls" {
+		upCfg["tls"] = map[string]any{"insecure_skip_verify": true}
+	}
+	proxy := rx.H("proxy", "upstreams", []map[string]any{upCfg})
 	var routes []rx.R
 	ctx := rx.BareCtx()
 	if c.Transport == "tls" {
@@ -295,8 +362,14 @@ func runCase(t hx.TB, c c3case, dir string) {
 	}
 	_ = raw.SetDeadline(time.Now().Add(30 * time.Second))
 	var cc net.Conn = raw
+	var hold *holdConn
 	if c.Transport == "tls" {
-		tc := tls.Client(raw, rx.ClientTLS("example.com", nil))
+		ccfg := rx.ClientTLS("example.com", nil)
+		if c.TLS12Close {
+			ccfg.MaxVersion = tls.VersionTLS12
+		}
+		hold = &holdConn{Conn: raw}
+		tc := tls.Client(hold, ccfg)
 		if err := tc.Handshake(); err != nil {
 			t.Fatalf("client handshake: %v", err)
 		}
@@ -328,6 +401,9 @@ func runCase(t hx.TB, c c3case, dir string) {
 			if c.ClientRstAt > 0 && off+c.ClientChunk > c.ClientRstAt {
 				end = min(end, c.ClientRstAt)
 			}
+			if c.TLS12Close && end == len(stream) && c.ClientRstAt == 0 {
+				hold.hold = true // the last record waits for the close_notify
+			}
 			if _, err := cc.Write(stream[off:end]); err != nil {
 				return
 			}
@@ -345,6 +421,9 @@ func runCase(t hx.TB, c c3case, dir string) {
 		switch x := cc.(type) {
 		case *tls.Conn:
 			_ = x.CloseWrite()
+			if hold != nil && hold.hold {
+				_ = hold.flush()
+			}
 		case interface{ CloseWrite() error }:
 			_ = x.CloseWrite()
 		}
@@ -479,6 +558,9 @@ func runCase(t hx.TB, c c3case, dir string) {
 	half := (c.ClientLate || hasMode(c, "after-eof")) && c.Client > 0
 	nontrivial := (c.Client > 0 && totalResp(c) > 0 && half) || len(c.Peers) >= 2 || c.PreMatch > 0
 	cl := []string{"C03/" + c.Transport, "C03/upstream-" + c.Upstream, fmt.Sprintf("C03/peers/%d", len(c.Peers))}
+	if c.TLS12Close {
+		cl = append(cl, "C03/tls12-close-with-last-record")
+	}
 	if fault {
 		cl = append(cl, "C03/fault")
 	}
